@@ -19,10 +19,12 @@ __CPROVER_ensures(self->crc_ == SPEC_CRC_SHIFT(__CPROVER_old(self->crc_) ^ (bitv
 /* update(): the state after the bytes [start, end) is the fold of the byte step over them, in order
    (h_crc_pref[i] = state after i bytes, defined by the harness with the bit-serial step) */
 static void CRC16Base_update(struct CRC16Base *self, const uint8_t *start, const uint8_t *end)
-__CPROVER_requires(__CPROVER_is_fresh(self, sizeof(*self)) && self->crc_ == h_crc_pref[0])
-__CPROVER_requires(start == h_crc_data && end >= start && end <= h_crc_data + CRC_MAXLEN)
+__CPROVER_requires(__CPROVER_is_fresh(self, sizeof(*self)))
+/* [start, end) is a segment of the logical stream h_crc_data, and the state on entry is the state after the bytes before it */
+__CPROVER_requires(start >= h_crc_data && start <= h_crc_data + CRC_MAXLEN && end >= start && end <= h_crc_data + CRC_MAXLEN)
+__CPROVER_requires(self->crc_ == h_crc_pref[start - h_crc_data])
 __CPROVER_assigns(self->crc_, __CPROVER_object_whole(h_inner))
-__CPROVER_ensures(self->crc_ == h_crc_pref[end - start]);
+__CPROVER_ensures(self->crc_ == h_crc_pref[end - h_crc_data]);
 
 static byte reverse_bit_order(byte in)
 __CPROVER_assigns()
@@ -49,14 +51,20 @@ __CPROVER_ensures(__CPROVER_return_value == (((h_track[(bitpos * self->stride_ +
 
 /* MFM: 16 cells c7 d7 ... c0 d0; a byte is delivered only if EVERY clock bit obeys the MFM rule
    c_i = !(d_{i+1} | d_i) (C06: a cell with a wrong clock bit yields no byte); the byte is d7..d0 */
-#define CELL(bs, p) (((h_track[((p) * (bs)->stride_ + (bs)->first_) / 8] >> (((p) * (bs)->stride_ + (bs)->first_) % 8)) & 1) != 0)
+#ifndef CELL
+#define CELL_IN(bs, p) ((p) * VERIF_STRIDE + (bs)->first_ < (bs)->raw_bit_size_)     /* BS_OK: stride_ == VERIF_STRIDE */
+#define CELL(bs, p) (((h_track[((p) * VERIF_STRIDE + (bs)->first_) / 8] >> (((p) * VERIF_STRIDE + (bs)->first_) % 8)) & 1) != 0)
+#endif
 static struct opt_byte mfm_read_byte(const struct BitStream *bits, size_t *pos_)
 __CPROVER_requires(BS_OK(bits) && __CPROVER_is_fresh(pos_, sizeof(*pos_)) && *pos_ >= 1 && *pos_ <= (1ul << 24) && bits->first_ <= bits->raw_bit_size_)
+/* the cell before the byte is inside the stream (it is read before any length check: callers start after a sync mark) */
+__CPROVER_requires(CELL_IN(bits, *pos_ - 1))
 __CPROVER_requires(g_diag < 1000)
 __CPROVER_assigns(*pos_, g_diag)
+__CPROVER_ensures(g_diag <= __CPROVER_old(g_diag) + 1 && *pos_ >= __CPROVER_old(*pos_) && *pos_ <= __CPROVER_old(*pos_) + 16)
+__CPROVER_ensures(__CPROVER_return_value.has ==> (*pos_ == __CPROVER_old(*pos_) + 16 && g_diag == __CPROVER_old(g_diag) && CELL_IN(bits, *pos_ - 1)))
 __CPROVER_ensures(__CPROVER_return_value.has ==>
-                  (*pos_ == __CPROVER_old(*pos_) + 16 &&
-                   (((__CPROVER_return_value.val >> (7 - g_bit)) & 1) != 0) == CELL(bits, __CPROVER_old(*pos_) + 2 * g_bit + 1) &&
+                  ((((__CPROVER_return_value.val >> (7 - g_bit)) & 1) != 0) == CELL(bits, __CPROVER_old(*pos_) + 2 * g_bit + 1) &&
                    CELL(bits, __CPROVER_old(*pos_) + 2 * g_bit) ==
                      !(CELL(bits, __CPROVER_old(*pos_) + 2 * g_bit - 1) || CELL(bits, __CPROVER_old(*pos_) + 2 * g_bit + 1))))
 __CPROVER_ensures(!__CPROVER_return_value.has ==> g_diag > __CPROVER_old(g_diag));
